@@ -244,6 +244,7 @@ func (w *c05World) park(d int, c *c05Conn) string {
 	}
 	w.st[d] = c05StRunning
 	if c.closed {
+		w.fire[d] = false
 		return "closed"
 	}
 	if w.fire[d] {
